@@ -2,7 +2,18 @@
 """Print the brief for a fresh mutation sub-agent: property text + its scratch worktree only (nothing from /verif)."""
 import json, sys
 pid = sys.argv[1]
-wt = f"/tmp/mut/{pid}"
+suffix = sys.argv[2] if len(sys.argv) > 2 else ""
+wt = f"/tmp/mut/{pid}{suffix}"
+avoid = ""
+if suffix:
+    # second-round brief: only tells the agent which source change was already made by someone else
+    import glob, os
+    prev = []
+    for f in sorted(glob.glob(f"/verif/seeded/{pid}-m*/meta.json")):
+        m = json.load(open(f))
+        prev.append(f"{', '.join(m.get('files_changed', []))}: {str(m.get('summary', ''))[:260]}")
+    if prev:
+        avoid = "\n\nAnother engineer has already made this change for the same property: " + " | ".join(prev) + "\nMake a DIFFERENT change: another function / mechanism, and if the property has several clauses, break another clause."
 p = next(json.loads(l) for l in open('/verif/properties.jsonl') if json.loads(l)['id'] == pid)
 print(f"""You are a software engineer studying how a semantic property of a codebase can be broken by a realistic, subtle code change (for testing a verification tool; this is a sealed sandbox, nothing leaves it).
 
@@ -11,7 +22,7 @@ Codebase: gmsol-labs/gmx-solana (GMX perpetuals/liquidity exchange ported to Sol
 The property (id {pid}) — "{p['title']}":
 {p['statement']}
 It must hold over: {p['quantifier']['text']}
-Where it lives (anchors): {', '.join(p['anchors']['files'])}
+Where it lives (anchors): {', '.join(p['anchors']['files'])}{avoid}
 
 Your task: produce ONE small, realistic change to the repository's own source (the kind of mistake or well-meant refactoring a maintainer could make: a dropped or weakened check, a swapped argument or side, a rounding direction, an off-by-one bound, a reordered pair of calls, a forgotten update on one path, two sites that each look fine alone) that BREAKS the property, while
  (a) the code still compiles, and
